@@ -804,6 +804,57 @@ func checkC20(c *Ctx) {
 	// the directory lock every handler takes is released again: a d.mu left locked makes every later operation
 	// on the directory block, so nothing is "reflected in later searches" any more
 	c.checkLockRelease("C20-lockrelease", c.shippedFuncs(TD), "every later request to the directory blocks for ever")
+	// ---- C20-stateless: a handler (the closure a handle* method returns) keeps nothing between requests except the
+	// directory itself: a map, slice, channel or pointer it captures from the enclosing method is created once, when
+	// the route is registered, and shared by every later request on every connection
+	{
+		n := 0
+		for _, outer := range c.shippedFuncs(TD) {
+			if outer.Signature.Recv() == nil || !strings.HasPrefix(outer.Name(), "handle") {
+				continue
+			}
+			for _, ret := range an.Returns(outer) {
+				for _, rv := range ret.Results {
+					mc, ok := an.Strip(rv).(*ssa.MakeClosure)
+					if !ok {
+						continue
+					}
+					h := mc.Fn.(*ssa.Function)
+					n++
+					bad := ""
+					for i, fv := range h.FreeVars {
+						t := fv.Type()
+						// captured by reference: a cell holding the variable
+						if i < len(mc.Bindings) {
+							if al, isAl := mc.Bindings[i].(*ssa.Alloc); isAl {
+								t = al.Type().(*types.Pointer).Elem()
+								// a captured cell that the handler (or a closure of it) assigns is shared state as well
+								if sts, _ := an.CellStores(al); len(sts) > 1 {
+									for _, st := range sts {
+										if st.Parent() != outer {
+											bad = fv.Name() + " (assigned by the handler)"
+										}
+									}
+								}
+							}
+						}
+						switch u := t.Underlying().(type) {
+						case *types.Map, *types.Slice, *types.Chan:
+							bad = fv.Name() + " (" + types.TypeString(t, shortq) + ")"
+						case *types.Pointer:
+							if !an.TypeIs(u, TD, "Directory") {
+								if _, isStruct := u.Elem().Underlying().(*types.Struct); isStruct {
+									bad = fv.Name() + " (" + types.TypeString(t, shortq) + ")"
+								}
+							}
+						}
+					}
+					R.Check(bad == "", "C20-stateless", fname(outer)+": the handler captures no mutable state of its own", c.P.Pos(h.Pos()), "captures only the directory, the test handle and immutable values", "the handler closure captures "+bad+" from the enclosing method: it is created once and shared by all requests, so what one request leaves in it shows up in the next (an added entry with another request's attributes, a result carried over)")
+				}
+			}
+		}
+		R.Count("C20-stateless/handlers", n)
+	}
 	R.Floor("C20-lockrelease", 4)
 	R.Floor("C20-arms", 3)
 	R.Floor("C20-pairing", 2)
